@@ -46,6 +46,18 @@ func (t *Tracer) Take() []websocket.VerifEvent {
 	return ev
 }
 
+type traceLine struct {
+	C  int64  `json:"c"`
+	G  int64  `json:"g"`
+	Ev string `json:"ev"`
+	L  string `json:"l"`
+	S  string `json:"s"`
+	A  int64  `json:"a"`
+	B  int64  `json:"b"`
+	D  int64  `json:"d"`
+	E  int64  `json:"e"`
+}
+
 // WriteNDJSON appends events to path, one JSON object per line.
 func WriteNDJSON(path string, evs []websocket.VerifEvent) error {
 	f, err := os.OpenFile(path, os.O_CREATE|os.O_WRONLY|os.O_APPEND, 0o644)
@@ -55,7 +67,8 @@ func WriteNDJSON(path string, evs []websocket.VerifEvent) error {
 	w := bufio.NewWriter(f)
 	enc := json.NewEncoder(w)
 	for _, e := range evs {
-		if err := enc.Encode(e); err != nil {
+		// every field always present: the trace specifications read e.s / e.l unconditionally
+		if err := enc.Encode(traceLine{e.Conn, e.G, e.Ev, e.L, e.S, e.A, e.B, e.D, e.E}); err != nil {
 			return err
 		}
 	}
